@@ -38,23 +38,37 @@ Definition set_del (f : str) (m : list str) : list str := filter (fun g => negb 
     redundant because Fields "" = []) *)
 Definition to_set (atoms : list str) : list str := fold_left (fun m f => set_add f m) atoms [].
 
-(** parseFlagsToSet *)
+(** parseFlagsToSet (exact spelling: used for the Junk/NonJunk detection) *)
 Definition parse_flags_to_set (s : str) : list str := to_set (fields s).
 
 (** removeFlagFromSet *)
 Definition remove_flag_from_set (m : list str) (f : str) : list str := set_del f m.
 
-(** for _, flag := range newFlags { if flag != "\\Recent" { flagMap[flag] = true } } *)
+(** ---- case-insensitive set of CalculateNewFlags (fix 06) ---- *)
+(** strings.EqualFold (ASCII) *)
+Definition eqf (a b : str) : bool := equal_fold a b.
+Arguments eqf : simpl never.
+Definition mem_ci (f : str) (m : list str) : bool := existsb (eqf f) m.
+(** setFlag: add unless present in another spelling *)
+Definition set_add_ci (f : str) (m : list str) : list str := if mem_ci f m then m else m ++ [f].
+(** clearFlag: remove every spelling *)
+Definition set_del_ci (f : str) (m : list str) : list str := filter (fun g => negb (eqf g f)) m.
+(** for _, flag := range strings.Fields(currentFlags) { setFlag(flagMap, flag) } *)
+Definition to_set_ci (atoms : list str) : list str := fold_left (fun m f => set_add_ci f m) atoms [].
+
+(** for _, flag := range newFlags { if !strings.EqualFold(flag, "\\Recent") { setFlag(flagMap, flag) } } *)
 Definition add_all (new : list str) (m : list str) : list str :=
-  fold_left (fun m f => if str_eqb f RECENT then m else set_add f m) new m.
-(** for _, flag := range newFlags { if flag != "\\Recent" { delete(flagMap, flag) } } *)
+  fold_left (fun m f => if eqf f RECENT then m else set_add_ci f m) new m.
+(** for _, flag := range newFlags { if !strings.EqualFold(flag, "\\Recent") { clearFlag(flagMap, flag) } } *)
 Definition del_all (new : list str) (m : list str) : list str :=
-  fold_left (fun m f => if str_eqb f RECENT then m else set_del f m) new m.
+  fold_left (fun m f => if eqf f RECENT then m else set_del_ci f m) new m.
 
 (** CalculateNewFlags(currentFlags, newFlags, operation) with
-    [cur] = strings.Fields currentFlags; result = the key set of flagMap. *)
+    [cur] = strings.Fields currentFlags; result = the key set of flagMap.
+    At most one spelling of a flag is ever in the map, so which spelling is
+    kept does not depend on Go's map iteration order: the first one. *)
 Definition calculate_new_flags (cur : list str) (new : list str) (item : str) : list str :=
-  let m := to_set cur in
+  let m := to_set_ci cur in
   if str_eqb item IT_FLAGS then add_all new []
   else if str_eqb item IT_ADD then add_all new m
   else if str_eqb item IT_DEL then del_all new m
